@@ -30,6 +30,7 @@ import numpy as np
 FOREIGN = 9999999      # an exception that is not one of the scenario's own (transfer failures)
 UNKNOWN = 8888888      # a value the harness cannot identify
 ZBASE = 1000000
+GBASE = 2000000      # an item that is itself an iterator (over one unique value): must be handed on as ONE item
 
 LOGW = None
 SEMS = None
@@ -77,17 +78,23 @@ class Unpick:
 
 
 EXC_TYPES = [ValueError, KeyError, RuntimeError, ZeroDivisionError, CustomExc]
+# raised by the wrapped FUNCTION only (a source that raises StopIteration simply ends): inside the stream generator
+# PEP 479 turns a StopIteration that reaches the generator body into RuntimeError with the original as __cause__
+FUNC_EXC_TYPES = EXC_TYPES + [StopIteration]
 
 
-def make_exc(k):
-    return EXC_TYPES[k % len(EXC_TYPES)](k, 'payload-%d' % k)
+def make_exc(k, func=False):
+    types = FUNC_EXC_TYPES if func else EXC_TYPES
+    return types[k % len(types)](k, 'payload-%d' % k)
 
 
 def identify_exc(e):
-    for k0, t in enumerate(EXC_TYPES):
-        if type(e) is t and len(e.args) == 2 and isinstance(e.args[0], int) \
-                and e.args[1] == 'payload-%d' % e.args[0] and e.args[0] % len(EXC_TYPES) == k0:
-            return e.args[0]
+    if type(e) is RuntimeError and isinstance(e.__cause__, StopIteration) and 'StopIteration' in str(e):
+        e = e.__cause__
+    if len(e.args) == 2 and isinstance(e.args[0], int) and e.args[1] == 'payload-%d' % e.args[0]:
+        k = e.args[0]
+        if type(e) is EXC_TYPES[k % len(EXC_TYPES)] or type(e) is FUNC_EXC_TYPES[k % len(FUNC_EXC_TYPES)]:
+            return k
     return FOREIGN
 
 
@@ -120,6 +127,18 @@ def identify(v, kw):
         if v[2] != tuple(sorted((kw or {}).items())):
             return UNKNOWN
         return v[1]
+    import collections.abc
+    if isinstance(v, collections.abc.Iterator):
+        global LOOKING
+        LOOKING = True
+        try:
+            got = list(v)       # (the consumer looks inside only now, after it has received the item)
+        finally:
+            LOOKING = False
+        if len(got) == 1 and isinstance(got[0], tuple) and len(got[0]) == 3 and got[0][0] == 'u' \
+                and got[0][2] == tuple(sorted((kw or {}).items())):
+            return GBASE + got[0][1]
+        return UNKNOWN
     for k, z in enumerate(ZOO):
         if same_value(v, z):
             return ZBASE + k
@@ -134,7 +153,7 @@ def _apply(x, kw, table=None):
     i = index_of(x)
     t = (table if table is not None else TABLE)[i]
     log('S', i)
-    if SEMS is not None:
+    if SEMS is not None and i < len(SEMS):
         SEMS[i].acquire()
     if KW_EXPECT is not None and kw != KW_EXPECT:
         log('K', i)
@@ -146,7 +165,7 @@ def _apply(x, kw, table=None):
     if t[0] == 'n':
         return None
     if t[0] == 'e':
-        raise make_exc(t[1])
+        raise make_exc(t[1], func=True)
     if t[0] == 'pr':
         return threading.Lock() if os.getpid() != MAINPID else ('u', i, tuple(sorted(kw.items())))
     if t[0] == 'pe':
@@ -166,21 +185,37 @@ def _inner_iter(i, items, kw):
     """generator result for serial flat-map scenarios; logs each pull"""
     for j, it in enumerate(items):
         log('L', i * 1000 + j)
-        if it == 'n':
-            yield None
-        elif isinstance(it, list):
-            yield ZOO[it[1]]
-        else:
-            yield ('u', it, tuple(sorted(kw.items())))
+        yield _inner_value(it, kw)
     log('M', i)
+
+
+LOOKING = False
+KEPT = []           # exceptions the consumer received, kept alive until the scenario is over
+
+
+def _nested(uid, kw):
+    # 'W': somebody other than the consumer advanced an iterator that was only an ITEM of a result
+    log('w' if LOOKING else 'W', uid)
+    yield ('u', uid, tuple(sorted(kw.items())))
 
 
 def _inner_value(it, kw):
     if it == 'n':
         return None
     if isinstance(it, list):
+        if it[0] == 'g':
+            return _nested(it[1], kw)       # an item that is an iterator itself
         return ZOO[it[1]]
     return ('u', it, tuple(sorted(kw.items())))
+
+
+def item_token(it):
+    """id of an inner item as the model and the oracles name it"""
+    if it == 'n':
+        return 'n'
+    if isinstance(it, list):
+        return str((GBASE if it[0] == 'g' else ZBASE) + it[1])
+    return str(it)
 
 
 def _inner_item(i, j, it, kw):
@@ -227,10 +262,13 @@ def make_closure(table):
 
 
 class Src:
-    """instrumented source iterator"""
-    def __init__(self, n, tail, pe):
+    """instrumented source iterator. `resume` > 0: a reader-like source that raises ONCE at position n (a corrupt record) and would
+    deliver `resume` further elements n, n+1, … if it were asked again — which nobody may do: the stream ended with the exception"""
+    def __init__(self, n, tail, pe, resume=0):
         self.n, self.tail, self.pe, self.i = n, tail, pe, 0
         self.calls = 0
+        self.resume = resume
+        self.raised = False
 
     def __iter__(self):
         return self
@@ -239,12 +277,36 @@ class Src:
         log('D', self.i)
         self.calls += 1
         if self.i >= self.n:
-            if self.tail is not None:
+            if self.tail is not None and not (self.resume and self.raised):
+                self.raised = True
                 raise make_exc(self.tail)
+            if self.resume and self.i < self.n + self.resume:
+                self.i += 1
+                return self.i - 1
             raise StopIteration
         i = self.i
         self.i += 1
         return Unpick(i) if i in self.pe else i
+
+
+class SrcHint(Src):
+    """a source that also announces how much is left (PEP 424), truthfully or not: a hint is advice, never part of the stream"""
+    hint = 'exact'
+
+    def __length_hint__(self):
+        left = max(self.n - self.i, 0)
+        return {'exact': left, 'zero': 0, 'one': 1, 'huge': 10 ** 9, 'short': left // 2}[self.hint]
+
+
+HINTS = ['exact', 'exact', 'zero', 'one', 'huge', 'short']
+
+
+def make_src(case, n, tail, pe):
+    if case.get('hint'):
+        src = SrcHint(n, tail, pe, case.get('resume', 0))
+        src.hint = case['hint']
+        return src
+    return Src(n, tail, pe, case.get('resume', 0))
 
 
 class NotAnIterator:
@@ -350,6 +412,10 @@ def controller(rfd, sems, sched, ctl_w):
             hold_done = True
         if sems is None:
             continue
+        if pool_gone:
+            # the stream has ended and its pool is being terminated: whatever is still inside an element stays there —
+            # terminate() has to cope with busy workers (everything is released when the scenario is over)
+            continue
         cand = [i for i in started if i not in released]
         if not cand:
             continue
@@ -376,7 +442,14 @@ class CaseTimeout(Exception):
     pass
 
 
+ALARM_FIRED = False
+
+
 def _alarm(signum, frame):
+    # the exception may land inside a generator finaliser (del / gc), where Python swallows it ("Exception ignored in"):
+    # the flag lets the scenario notice that its time limit went off all the same
+    global ALARM_FIRED
+    ALARM_FIRED = True
     raise CaseTimeout()
 
 
@@ -399,7 +472,7 @@ def run_case(case):
     table = [list(t) for t in case['table']]
     kwargs = dict(case.get('kwargs') or {})
     MAINPID = os.getpid()
-    TABLE = table
+    TABLE = table + [['u'] for _ in range(case.get('resume', 0))]      # what a source that should not be asked again would deliver
     KW_EXPECT = kwargs
     rfd, LOGW = os.pipe()
     ctl_r, ctl_w = os.pipe()
@@ -446,7 +519,7 @@ def run_case(case):
         fk = case.get('fkind', 'module')
         func = f_mod if fk == 'module' else (F_LAMBDA if fk == 'lambda' else make_closure(table))
         P = pipeline(cfg['nworkers'], skipNone=cfg['skipNone'], extracache=cfg['extracache'],
-                     maxtasksperchild=cfg.get('maxtasksperchild'))(func)
+                     maxtasksperchild=cfg.get('maxtasksperchild'), verbose=bool(cfg.get('verbose')))(func)
         # earlier streams of the same stage (for the additivity of pipe_info)
         pre = case.get('pre_counts')
         if pre:
@@ -461,7 +534,7 @@ def run_case(case):
             SEMS = saved
             res['prior_info'] = (P.pipe_info().processed, P.pipe_info().yielded)
         pe = {i for i, t in enumerate(table) if t[0] == 'pe'}
-        src = Src(n, case.get('tail'), pe)
+        src = make_src(case, n, case.get('tail'), pe)
         ch0 = children((cpid,))
         stream = P(src, **kwargs)
         res['created'] = dict(draws=src.i, src_calls=src.calls, new_children=len(children((cpid,))) - len(ch0),
@@ -502,6 +575,7 @@ def run_case(case):
                 except CaseTimeout:
                     raise
                 except Exception as e:  # noqa
+                    KEPT.append(e)       # a consumer may keep the exception (a log, pytest's excinfo): its traceback holds the stream's frame
                     eid = identify_exc(e)
                     if isinstance(act, list) and eid == act[1]:
                         pass   # the thrown exception came straight back: recorded by the T event
@@ -530,6 +604,8 @@ def run_case(case):
                 log('C')
                 stream = None
                 gc.collect()
+                if ALARM_FIRED:
+                    raise CaseTimeout()
                 finished = True
             elif act == 'I':
                 info = P.pipe_info()
@@ -646,7 +722,7 @@ def model_outcomes(case, parallel=True):
         elif t[0] in ('pe', 'pr'):
             toks.append('e%d' % FOREIGN if parallel else 'v%d' % i)
         elif t[0] == 'it':
-            toks.append('i:' + ','.join('n' if it == 'n' else (str(ZBASE + it[1]) if isinstance(it, list) else str(it)) for it in t[1]))
+            toks.append('i:' + ','.join(item_token(it) for it in t[1]))
         else:
             raise ValueError(t)
     return toks
@@ -714,10 +790,8 @@ def expected_obs(case, parallel=True):
                 if it == 'n':
                     if not skip:
                         out.append('n')
-                elif isinstance(it, list):
-                    out.append('v%d' % (ZBASE + it[1]))
                 else:
-                    out.append('v%d' % it)
+                    out.append('v' + item_token(it))
         else:
             out.append('v%d' % i)
     if case.get('tail') is not None:
@@ -789,6 +863,9 @@ def run_cases(cases, workers=16, hard_timeout=40):
                 try:
                     os.setpgid(0, 0)
                     os.close(r)
+                    # whatever the scenario prints (verbose=True stages, also from the workers) goes nowhere
+                    dn = os.open(os.devnull, os.O_WRONLY)
+                    os.dup2(dn, 1)
                     for fd in list(live):
                         try:
                             os.close(fd)
@@ -832,6 +909,7 @@ def isolated(fn, args=(), timeout=60):
         try:
             os.setpgid(0, 0)
             os.close(r)
+            os.dup2(os.open(os.devnull, os.O_WRONLY), 1)
             try:
                 data = pickle.dumps(('ok', fn(*args)))
             except BaseException:  # noqa
@@ -875,6 +953,40 @@ def isolated(fn, args=(), timeout=60):
             res = ('error', 'no result from the isolated run')
     return res
 
+
+
+class HarnessTimeout(Exception):
+    """raised in the main thread by time_limit()"""
+
+
+class time_limit:
+    """with time_limit(s): ... — a SIGALRM-based wall-clock limit for a piece of in-process work on the implementation
+    (main thread only). On expiry HarnessTimeout is raised inside the block."""
+
+    def __init__(self, seconds):
+        self.seconds = seconds
+
+    def _fire(self, signum, frame):
+        raise HarnessTimeout('no answer within %s s' % self.seconds)
+
+    def __enter__(self):
+        self.old = signal.signal(signal.SIGALRM, self._fire)
+        signal.setitimer(signal.ITIMER_REAL, self.seconds)
+        return self
+
+    def __exit__(self, *exc):
+        signal.setitimer(signal.ITIMER_REAL, 0)
+        signal.signal(signal.SIGALRM, self.old)
+        return False
+
+
+def kill_children():
+    """SIGKILL every direct child process (used after an in-process call of the implementation ran into time_limit)"""
+    for pid, _state in children():
+        try:
+            os.kill(pid, signal.SIGKILL)
+        except OSError:
+            pass
 
 # ---------------------------------------------------------------------------
 # several streams of ONE stage object, created / advanced / dropped in an interleaved plan
@@ -951,7 +1063,7 @@ def run_multi(case):
         fk = case.get('fkind', 'module')
         func = f_mod if fk == 'module' else (F_LAMBDA if fk == 'lambda' else make_closure(TABLE))
         P = pipeline(cfg['nworkers'], skipNone=cfg['skipNone'], extracache=cfg['extracache'],
-                     maxtasksperchild=cfg.get('maxtasksperchild'))(func)
+                     maxtasksperchild=cfg.get('maxtasksperchild'), verbose=bool(cfg.get('verbose')))(func)
         for s, act in case['plan']:
             st = case['streams'][s]
             kw = dict(st.get('kwargs') or {})
@@ -987,6 +1099,7 @@ def run_multi(case):
                 except CaseTimeout:
                     raise
                 except Exception as e:  # noqa
+                    KEPT.append(e)
                     log('M', s)
                     eid = identify_exc(e)
                     log('R', eid)
@@ -1004,6 +1117,8 @@ def run_multi(case):
                     log('C', s)
                     del streams[s]
                     gc.collect()
+                    if ALARM_FIRED:
+                        raise CaseTimeout()
                     state[s] = 'closed'
         # end of the plan: whatever is still suspended is closed now (recorded), then the process table is inspected
         res['left_open'] = sorted(s for s in streams if state.get(s) in ('open', 'created'))
